@@ -78,7 +78,7 @@ struct Auth {
     zones: Zones,
 }
 
-static AUTH: OnceLock<Mutex<Result<Auth, String>>> = OnceLock::new();
+static AUTH: OnceLock<Mutex<Option<Auth>>> = OnceLock::new();
 
 fn start_auth() -> Result<Auth, String> {
     let dir = scratch("c09-auth");
@@ -452,9 +452,20 @@ fn run_batch(addr: SocketAddr, b: &Batch) -> Result<BatchResult, String> {
     let mut buf = vec![0u8; 65_536];
     let t0 = Instant::now();
     let mut sentinel_at: Option<Instant> = None;
+    // UDP messages that must be answered (a slow upstream may delay the answer
+    // by up to 5 s + 5 s): keep listening for those, up to 12 s
+    let expecting: Vec<usize> = b
+        .msgs
+        .iter()
+        .enumerate()
+        .filter(|(_, m)| m.via == Via::Udp && !matches!(expectation(&m.bytes), Expect::NoReply | Expect::FormErrOrNothing))
+        .map(|x| x.0)
+        .collect();
     loop {
+        let missing = expecting.iter().any(|i| replies[*i].is_empty());
         let wait = match sentinel_at {
             // grace period for stragglers after the sentinel came back
+            Some(t) if missing => Duration::from_secs(12).saturating_sub(t.elapsed()),
             Some(t) => Duration::from_millis(60).saturating_sub(t.elapsed()),
             None => Duration::from_secs(20).saturating_sub(t0.elapsed()),
         };
@@ -525,12 +536,16 @@ impl Prop for Authoritative {
         }
     }
     fn check(&self, b: &Batch) -> Outcome {
-        let cell = AUTH.get_or_init(|| Mutex::new(start_auth()));
+        let cell = AUTH.get_or_init(|| Mutex::new(None));
         let mut guard = cell.lock().unwrap();
-        let auth = match guard.as_mut() {
-            Ok(a) => a,
-            Err(e) => return Outcome::pass(false).class("server-not-started").class(e.clone()),
-        };
+        // (re)start when there is no server or the previous case killed it
+        if guard.as_mut().map_or(true, |a| !a.server.alive()) {
+            match start_auth() {
+                Ok(a) => *guard = Some(a),
+                Err(e) => return Outcome::pass(false).class("server-not-started").class(e),
+            }
+        }
+        let auth = guard.as_mut().unwrap();
         judge_batch(&mut auth.server, &auth.zones, false, b)
     }
 }
@@ -614,7 +629,7 @@ struct Fwd {
     sent: Arc<Mutex<Vec<WRR>>>,
 }
 
-static FWD: OnceLock<Mutex<Result<Fwd, String>>> = OnceLock::new();
+static FWD: OnceLock<Mutex<Option<Fwd>>> = OnceLock::new();
 
 /// Behaviour is encoded in the first label of the question name.
 fn forwarder_answer(q: &WQ) -> (WMsg, &'static str) {
@@ -783,12 +798,15 @@ impl Prop for Forwarding {
         }
     }
     fn check(&self, b: &FwdBatch) -> Outcome {
-        let cell = FWD.get_or_init(|| Mutex::new(start_fwd()));
+        let cell = FWD.get_or_init(|| Mutex::new(None));
         let mut guard = cell.lock().unwrap();
-        let fwd = match guard.as_mut() {
-            Ok(a) => a,
-            Err(e) => return Outcome::pass(false).class("server-not-started").class(e.clone()),
-        };
+        if guard.as_mut().map_or(true, |a| !a.server.alive()) {
+            match start_fwd() {
+                Ok(a) => *guard = Some(a),
+                Err(e) => return Outcome::pass(false).class("server-not-started").class(e),
+            }
+        }
+        let fwd = guard.as_mut().unwrap();
         let pid = std::process::id();
         let mut msgs = Vec::new();
         let mut questions = Vec::new();
